@@ -45,6 +45,8 @@ S_, I_ = z3.StringSort(), z3.IntSort()
 LinesArr = z3.ArraySort(I_, S_)
 JOIN = z3.Function("join_lines", S_, LinesArr, I_, S_)  # sep.join(lines[0:n])
 SUB = z3.Function("newline_re_sub", S_, S_, S_)  # newline_re.sub(t, s) = the lines of s joined by t
+LINES = z3.Function("lines_of", S_, LinesArr)  # newline_re.split(s)[::2]: the lines of s ...
+NLINES = z3.Function("number_of_lines", S_, I_)  # ... and how many (>= 1)
 
 
 class FakeSplit:
@@ -79,8 +81,8 @@ class Preamble(X.SegmentVC):
     prop = PROP
     target = "jinja2.lexer:Lexer.tokeniter"
 
-    def __init__(self):
-        super().__init__(PROP, "C11.preamble")
+    def __init__(self, name="C11.preamble"):
+        super().__init__(PROP, name)
 
     def segment(self):
         stmts, P = preamble_segment()
@@ -93,10 +95,12 @@ class Preamble(X.SegmentVC):
 
         def split_h(I_x, st, args, kwargs, node):
             # dependency spec: newline_re.split(s) = [line0, break0, line1, ..., line_{n-1}], n >= 1 (C11.newline_re: one capturing group)
-            if len(args) != 1 or args[0] is not c.source:
-                raise Unsupported("newline_re.split is not applied to the source parameter", node)
+            if len(args) != 1 or models.kind_of(args[0]) != "str":
+                raise Unsupported("newline_re.split(string, maxsplit)", node)
             models.used("newline_re.split(s)[::2] = the lines of s cut at each leftmost \\r\\n | \\r | \\n (n >= 1 lines)")
-            return [(st, st.alloc(HObj(FakeSplit, path="split")))]
+            arg = to_term(args[0], "str")
+            st.assume(NLINES(arg) >= 1)
+            return [(st, st.alloc(HObj(FakeSplit, fields={"of": Sym(arg, "str")}, path="split")))]
 
         def hook(I_x, st, obj, name, node):
             if obj is L.newline_re and name == "split":
@@ -112,7 +116,8 @@ class Preamble(X.SegmentVC):
         def getslice_obj(I_x, st, args, kwargs, node):
             obj, sl = args
             if isinstance(obj, Ref) and isinstance(st.get(obj), HObj) and st.get(obj).cls is FakeSplit and tuple(sl) == (None, None, 2):
-                return [(st, st.alloc(HObj(FakeLines, fields={"arr": c.L, "n": Sym(c.n0, "int")}, path="lines")))]
+                arg = st.get(obj).fields["of"].t
+                return [(st, st.alloc(HObj(FakeLines, fields={"arr": LINES(arg), "n": Sym(NLINES(arg), "int")}, path="lines")))]
             return None
 
         I.specs["getslice_obj"] = getslice_obj
@@ -125,7 +130,7 @@ class Preamble(X.SegmentVC):
             out = []
             for s1, ok in I_x.fork_bool(st, z3.And(0 <= ni, ni < n)):
                 if ok:
-                    out.append((s1, Sym(z3.Select(c.L, ni), "str")))
+                    out.append((s1, Sym(z3.Select(h.fields["arr"], ni), "str")))
                 else:
                     out.append((s1, Raised(Exc(IndexError, ("list index out of range",), origin=getattr(node, "lineno", None)))))
             return out
@@ -157,12 +162,19 @@ class Preamble(X.SegmentVC):
 
         I.specs["str.join"] = join_h
 
+        def removesuffix_h(I_x, st, args, kwargs, node):
+            models.used("str.removesuffix(t): s without its final t if s ends with t, else s")
+            sv, suf = to_term(args[0], "str"), to_term(args[1], "str")
+            return [(st, Sym(z3.If(z3.SuffixOf(suf, sv), z3.SubString(sv, 0, z3.Length(sv) - z3.Length(suf)), sv), "str"))]
+
+        I.specs["str.removesuffix"] = removesuffix_h
+
     def setup(self, I, st):
         R = X.tokeniter_parts()["roles"]
         self.source = sym("source", "str")
         self.ktn = sym("keep_trailing_newline", "bool")
-        self.L = z3.Const("lines", LinesArr)
-        self.n0 = z3.Int("n_lines")
+        self.L = LINES(self.source.t)  # the lines of the ORIGINAL source
+        self.n0 = NLINES(self.source.t)
         st.assume(self.n0 >= 1)  # split never returns an empty list
         lexer = st.alloc(HObj(L.Lexer, fields={"keep_trailing_newline": self.ktn}, path="self"), initial=True)
         return {R.self: lexer, R.source: self.source}
@@ -180,7 +192,8 @@ class Preamble(X.SegmentVC):
     posts = [("working_source", p_working_source)]
 
     def concretize(self, model, pre, out):
-        n = max(1, min(4, model_value(model, self.n0)))
+        n = model_value(model, self.n0)
+        n = max(1, min(4, n if isinstance(n, int) else 1))
         lines = [X.mstr(model, z3.Select(self.L, i)) for i in range(n)]
         return {"lines": lines, "keep_trailing_newline": bool(model_value(model, self.ktn.t))}
 
